@@ -14,6 +14,7 @@ import LasModel.Driver.CompD
 import LasModel.Driver.CopcD
 import LasModel.Driver.HttpD
 import LasModel.Model.Selection
+import LasModel.Driver.FmtD
 namespace LasModel.Driver
 
 /-- the operator tables of the view classes as the model has them (`Gen.Views`) -/
@@ -37,6 +38,7 @@ def dispatch (line : String) : String :=
   | "cz" :: rest => (CompD.handle rest).getD "bad-op"
   | "cp" :: rest => (CopcD.handle rest).getD "bad-op"
   | "ht" :: rest => (HttpD.handle rest).getD "bad-op"
+  | "fe" :: rest => (FmtD.handle rest).getD "bad-op"
   | ["vw", "tables"] => viewTables
   | ["od", "flags"] => s!"writer={if Gen.Order.writerCountsAfterWrite then 1 else 0} appender={if Gen.Order.appenderCountsAfterWrite then 1 else 0}"
   | ["sel", "lazrs", n] => (match n.toNat? with
